@@ -1509,7 +1509,7 @@ def run_c14(ctx):
                                   len(sworlds), nsessions, nev + nev2))
     # extra module: `valjean run` from the job file to the files on disk (Pipeline.tla, observations only, see conf_pipeline.py)
     import conf_pipeline
-    conf_pipeline.run(ctx, tlc.workdir('c14pipeline'))
+    ctx.extra('Pipeline', conf_pipeline.run, tlc.workdir('c14pipeline'))
 
 
 def _digest(ctx, drifts, verdict, worlds, ntasks):
